@@ -2,8 +2,8 @@
    nat/Z stay the extracted datatypes; no Extract Constant). *)
 Require Extraction.
 Require Import ExtrOcamlBasic.
-Require Import ExcerptModel ExcerptSpec Model Spec Entry SpanSpec Run Visit Traverse Transform Objects OpTable Pratt.
+Require Import ExcerptModel ExcerptSpec Model Spec Entry SpanSpec Run Visit Traverse Transform Objects OpTable Pratt PrecOk.
 Extraction "../ocaml/model.ml"
   lc_map line_col extract_text bytes_window error_line_col
   spec_line spec_col linecol_ok excerpt_ok
-  always partial exec fresh peg parse_model spans_ordered run_script visit_loop dfs_list visit_loop2 dfs2_list traverse_loop ev tr chainf py_eq loop pratt.
+  always partial exec fresh peg parse_model spans_ordered run_script visit_loop dfs_list visit_loop2 dfs2_list traverse_loop ev tr chainf py_eq loop pratt pok.
